@@ -30,6 +30,18 @@ fn normalize_cdn_path(path: &str) -> &str {
     path.trim_end_matches('/')
 }
 
+/// Split a hex-encoded key into the two directory levels of a CDN path (`ab`, `cd`).
+///
+/// A key shorter than two bytes (four hex characters) has no such path; it is reported as
+/// [`ProtocolError::InvalidKey`] instead of panicking on the slice. `str::get` also covers
+/// archive names from remote configuration that are not ASCII.
+fn key_path_prefixes(hex_key: &str) -> Result<(&str, &str)> {
+    match (hex_key.get(..2), hex_key.get(2..4)) {
+        (Some(first), Some(second)) => Ok((first, second)),
+        _ => Err(ProtocolError::InvalidKey),
+    }
+}
+
 /// Parse the `Retry-After` header from an HTTP response.
 ///
 /// Agent.exe reads this header on 429 responses and waits the specified duration.
@@ -134,8 +146,13 @@ impl CdnClient {
     }
 
     /// Build CDN URL from injected endpoint configuration
-    fn build_url(endpoint: &CdnEndpoint, content_type: ContentType, key: &[u8]) -> String {
+    fn build_url(
+        endpoint: &CdnEndpoint,
+        content_type: ContentType,
+        key: &[u8],
+    ) -> Result<String> {
         let hex_key = hex::encode(key);
+        let (first, second) = key_path_prefixes(&hex_key)?;
 
         // IMPORTANT: Always use path field for ALL game content (config, data, patch)
         // ProductPath is ONLY for Battle.net launcher product configuration files
@@ -145,16 +162,10 @@ impl CdnClient {
         // Use endpoint scheme if specified, otherwise default to https
         let scheme = endpoint.scheme.as_deref().unwrap_or("https");
 
-        format!(
+        Ok(format!(
             "{}://{}/{}/{}/{}/{}/{}",
-            scheme,
-            endpoint.host,
-            base_path,
-            content_type,
-            &hex_key[..2],
-            &hex_key[2..4],
-            hex_key
-        )
+            scheme, endpoint.host, base_path, content_type, first, second, hex_key
+        ))
     }
 
     /// Download content using injected CDN endpoint
@@ -165,6 +176,7 @@ impl CdnClient {
         key: &[u8],
     ) -> Result<Vec<u8>> {
         let hex_key = hex::encode(key);
+        let (first, second) = key_path_prefixes(&hex_key)?;
 
         // Use full CDN path structure for cache key to match actual CDN organization
         // This allows direct correlation between cache files and CDN URLs
@@ -173,8 +185,8 @@ impl CdnClient {
             "cdn/{}/{}/{}/{}/{}",
             normalize_cdn_path(&endpoint.path),
             content_type,
-            &hex_key[..2],
-            &hex_key[2..4],
+            first,
+            second,
             hex_key
         );
 
@@ -185,7 +197,7 @@ impl CdnClient {
         }
 
         // Build URL from injected configuration (no Ribbit dependency)
-        let url = Self::build_url(endpoint, content_type, key);
+        let url = Self::build_url(endpoint, content_type, key)?;
 
         // Download with retry logic
         let data = self.download_with_retry(&url).await?;
@@ -224,7 +236,7 @@ impl CdnClient {
         key: &[u8],
         resume_from: Option<u64>,
     ) -> Result<Vec<u8>> {
-        let url = Self::build_url(endpoint, content_type, key);
+        let url = Self::build_url(endpoint, content_type, key)?;
 
         // If no resume point, use regular download
         let Some(offset) = resume_from else {
@@ -278,7 +290,7 @@ impl CdnClient {
         offset: u64,
         length: u64,
     ) -> Result<Vec<u8>> {
-        let url = Self::build_url(endpoint, content_type, key);
+        let url = Self::build_url(endpoint, content_type, key)?;
 
         let response = self
             .http_client
@@ -311,7 +323,7 @@ impl CdnClient {
     where
         F: FnMut(u64, u64) + Send,
     {
-        let url = Self::build_url(endpoint, content_type, key);
+        let url = Self::build_url(endpoint, content_type, key)?;
 
         let response = self.http_client.inner().get(&url).send().await?;
         let total_size = response.content_length().unwrap_or(0);
@@ -351,7 +363,7 @@ impl CdnClient {
     where
         F: FnMut(u64, u64) + Send,
     {
-        let url = Self::build_url(endpoint, content_type, key);
+        let url = Self::build_url(endpoint, content_type, key)?;
 
         let response = self.http_client.inner().get(&url).send().await?;
         let total_size = response.content_length().unwrap_or(0);
@@ -377,11 +389,12 @@ impl CdnClient {
     ) -> Result<Vec<u8>> {
         // Build cache key for index file
         // Always use path field for ALL game content
+        let (first, second) = key_path_prefixes(archive_key)?;
         let cache_key = format!(
             "cdn/{}/data/{}/{}/{}.index",
             normalize_cdn_path(&endpoint.path),
-            &archive_key[..2],
-            &archive_key[2..4],
+            first,
+            second,
             archive_key
         );
 
@@ -397,12 +410,7 @@ impl CdnClient {
         let base_path = normalize_cdn_path(&endpoint.path);
         let url = format!(
             "{}://{}/{}/data/{}/{}/{}.index",
-            scheme,
-            endpoint.host,
-            base_path,
-            &archive_key[..2],
-            &archive_key[2..4],
-            archive_key
+            scheme, endpoint.host, base_path, first, second, archive_key
         );
 
         // Download with retry logic
@@ -426,7 +434,7 @@ impl CdnClient {
         content_type: ContentType,
         key: &[u8],
     ) -> Result<Option<u64>> {
-        let url = Self::build_url(endpoint, content_type, key);
+        let url = Self::build_url(endpoint, content_type, key)?;
 
         let response = self.http_client.inner().head(&url).send().await?;
 
@@ -456,14 +464,10 @@ impl CdnClient {
     ) -> Result<Option<u64>> {
         let scheme = endpoint.scheme.as_deref().unwrap_or("https");
         let base_path = normalize_cdn_path(&endpoint.path);
+        let (first, second) = key_path_prefixes(archive_key)?;
         let url = format!(
             "{}://{}/{}/data/{}/{}/{}.index",
-            scheme,
-            endpoint.host,
-            base_path,
-            &archive_key[..2],
-            &archive_key[2..4],
-            archive_key
+            scheme, endpoint.host, base_path, first, second, archive_key
         );
 
         let response = self.http_client.inner().head(&url).send().await?;
@@ -611,7 +615,8 @@ mod tests {
         };
 
         let key = hex::decode("abcdef1234567890").expect("Operation should succeed");
-        let url = CdnClient::build_url(&endpoint, ContentType::Data, &key);
+        let url = CdnClient::build_url(&endpoint, ContentType::Data, &key)
+            .expect("Operation should succeed");
 
         assert_eq!(
             url,
@@ -634,7 +639,8 @@ mod tests {
         };
 
         let key = hex::decode("abcdef1234567890").expect("Operation should succeed");
-        let url = CdnClient::build_url(&endpoint, ContentType::Config, &key);
+        let url = CdnClient::build_url(&endpoint, ContentType::Config, &key)
+            .expect("Operation should succeed");
 
         // Should use path, not product_path
         assert_eq!(
@@ -1015,7 +1021,8 @@ mod tests {
         };
 
         let key = hex::decode("abcdef1234567890").expect("Operation should succeed");
-        let url = CdnClient::build_url(&endpoint, ContentType::Data, &key);
+        let url = CdnClient::build_url(&endpoint, ContentType::Data, &key)
+            .expect("Operation should succeed");
 
         // Should NOT have double slash between path and content type
         assert_eq!(
@@ -1038,7 +1045,8 @@ mod tests {
         };
 
         let key = hex::decode("abcdef1234567890").expect("Operation should succeed");
-        let url = CdnClient::build_url(&endpoint, ContentType::Config, &key);
+        let url = CdnClient::build_url(&endpoint, ContentType::Config, &key)
+            .expect("Operation should succeed");
 
         assert_eq!(
             url,
